@@ -13,8 +13,12 @@ CLAIMS = {
    design="4/C01"),
  "C02": dict(
    text="Proof: machine.ValidTransition returns nil if and only if the candidate carries the channel id and app, follows a non-final state, has exactly the next version, is a valid allocation (dimensions, limits, non-negative amounts: Allocation.Valid/SubAlloc.Valid proved as iff against validAlloc), keeps the asset list and satisfies the sum relation; StateMachine.validTransition adds 'actor is an existing participant' and the app rule; Update and CheckUpdate succeed iff that holds (Update additionally phase Acting) and otherwise change nothing; newState/Init produce version 0, the channel id and a valid allocation with one balance per participant or fail. Sig signs only the staged state and channel.Sign has no other call site, so refused candidates are never signed.",
-   note="NOT yet discharged in this round: the arithmetic of the per-asset totals - polybig.EqualSum/Allocation.Sum/Balances.Sum are represented by a trusted ghost relation (sumsEqAlloc) returned by EqualSum; app rules are interface contracts (payment/no-app bodies not yet verified). Assumes the current state is well-formed with version < 2^64-1 and non-nil balances/assets.",
+   note="NOT yet discharged in this round: the arithmetic of the per-asset totals - polybig.EqualSum/Allocation.Sum/Balances.Sum are represented by a trusted ghost relation (sumsEqAlloc) returned by EqualSum; the payment app (nil iff no balance of the actor grows and no other balance shrinks) and the no-app are verified against the preconditions the interface contract gives them, but that their rule equals the ghost appTransOK used by validTransition is by reading, not a refinement check. Assumes the current state is a valid allocation with one column per participant (ensured for states staged by Init/Update; ForceUpdate/restore are outside the regular path) with version < 2^64-1 and non-nil balances/assets; payment data is NoData.",
    design="4/C02"),
+ "C08": dict(
+   text="Proof (per function, all inputs): validTwoPartyProposal returns nil only if every condition of the statement holds for the received proposal (at least two participants, non-zero challenge duration, valid and unlocked initial allocation, peers equal to (sender, receiver) in protocol order, known parent; sub-channel: parent's assets and parent balances covering the initial balances; virtual channel: two parents, two index maps of length two with entries in range, funding agreement equal to the initial balances, parent with equal assets and backends). The user's ProposalHandler.HandleProposal carries that predicate as precondition and a call-site closure shows handleChannelProposal is its only caller, so a malformed proposal is dropped before the handler runs; completeCPP passes to the parameter constructor exactly (proposal's duration, app, aux, [proposer participant, responder participant], nonce of (proposer share, responder share), flags by proposal kind) independent of the own index, so both sides derive identical parameters and ID and the ID depends on both nonce shares. Not decided here: schedules of the opening protocol and the signature exchange producing the fully signed version-0 state (per-side state machine facts are C01/C09); completeCPP after parameter construction.",
+   note="Trusted: chanRegistry.Channel returns well-formed two-party channels with a valid current state (client invariant chanWF, not re-proved), decoder postconditions of C13 as preconditions, calcNonce (SHA3 over proposer share then responder share), multi.IsMultiLedgerAssets, sealed sets of proposal/accept kinds; completeCPP verified only up to NewParams (cutafter). Sequential semantics; no schedule exploration.",
+   design="4/C08"),
  "C09": dict(
    text="Proof: every operation of the channel state machine (machine.go) is verified, for all pre-states satisfying the machine's object invariant and all arguments, against a contract taken from the property statement: success <=> documented phase/signature/final-flag precondition, success => documented target phase and effect, failure => phase, staged and current transaction (including signature list contents) unchanged, own signatures only in signing phases over the staged state. The phase tables are proved from the package initialiser and shown read-only; arbitrary call sequences follow by induction over the invariant.",
    note="Trusted: go/ssa, govc's instruction model, SMT solvers, library specs (pkg/errors, logging), channel.Sign/Verify as pure functions of (address, state, signature); assumes states/signature slices handed to the machine are not mutated afterwards and candidate states are non-nil. Sequential semantics.",
